@@ -107,6 +107,8 @@ def handle : List String → String
       | "psbtmap.parse" => Psbt.runMap mode b
       | "psbtin.reser0" => Psbt.runReserIn 0 b
       | "psbtin.reser2" => Psbt.runReserIn 2 b
+      | "psbtout.reser0" => Psbt.runReserOut 0 b
+      | "psbtout.reser2" => Psbt.runReserOut 2 b
       | "psbtmap.norm" => Psbt.runNorm mode b
       | _ => "bad-op"
   | _ => "bad-op"
